@@ -55,10 +55,10 @@ func TestMain(m *testing.M) { evid.Main(m, "C13") }
 
 // once a violation was reported the remaining runs of that test are rapid's
 // shrink attempts: waits that would confirm a hang get a short bound then
-var sawViolation int32
+var sawViolation sync.Map // transport -> true
 
-func bound() time.Duration {
-	if atomic.LoadInt32(&sawViolation) != 0 {
+func bound(transport string) time.Duration {
+	if _, ok := sawViolation.Load(transport); ok {
 		return 1500 * time.Millisecond
 	}
 	return ioBound
@@ -75,18 +75,16 @@ var sdpAV = mediah.SDP(esgen.H264, true)
 
 // ---------------------------------------------------------------- schedule-point dispatcher
 
-// winState is one fired window: closed is set when the parked frame write went on.
-type winState struct{ closed int32 }
-
 // target is the session of one running case: the hook arrivals that belong to
 // it are counted and handed to its injector.
 type target struct {
 	in       *sched.Injector
-	arrived  int64                    // arrivals at the point (frames whose prefix was written)
-	passed   int64                    // arrivals that went on to the payload
-	cur      atomic.Pointer[winState] // the window whose request is in flight
-	inside   int64                    // competing requests answered while the window was open
-	outlived int64                    // competing requests whose answer came only after the window closed
+	arrived  int64 // arrivals at the point (frames whose prefix was written)
+	passed   int64 // arrivals that went on to the payload
+	closedN  int64 // fired windows whose parked frame write went on (windows of one session are sequential)
+	late     int64 // windows that closed before their request went out (scheduler delay): not counted as non-trivial
+	inside   int64 // competing requests answered while the window was open
+	outlived int64 // competing requests whose answer came only after the window closed
 }
 
 var reg struct {
@@ -130,9 +128,7 @@ func dispatch(point string, obj interface{}) {
 	before := tg.in.FiredCount()
 	tg.in.Hook(point, obj)
 	if tg.in.FiredCount() > before {
-		if w := tg.cur.Load(); w != nil {
-			atomic.StoreInt32(&w.closed, 1)
-		}
+		atomic.AddInt64(&tg.closedN, 1)
 	}
 	atomic.AddInt64(&tg.passed, 1)
 }
@@ -733,7 +729,7 @@ func waitFor(bound time.Duration, cond func() bool) bool {
 
 // sync waits until the delivery goroutine has written every packet published so far.
 func (e *env) sync() bool {
-	b := bound()
+	b := bound(e.pl.Transport)
 	if e.soft {
 		b = 5 * time.Millisecond
 	}
@@ -750,16 +746,19 @@ func (e *env) addWindows() {
 			if atomic.LoadInt32(&e.windowsOff) != 0 {
 				return
 			}
-			ws := &winState{}
-			e.tg.cur.Store(ws)
+			mine := int64(e.tg.in.FiredCount()) // this window is the mine-th of the session
 			id, err := e.se.send(w.Method)
+			if atomic.LoadInt64(&e.tg.closedN) >= mine {
+				atomic.AddInt64(&e.tg.late, 1)
+				return
+			}
 			if err != nil {
 				return
 			}
-			if !waitFor(bound(), func() bool { return e.se.answered(id) || e.se.broken() }) || !e.se.answered(id) {
+			if !waitFor(bound(e.pl.Transport), func() bool { return e.se.answered(id) || e.se.broken() }) || !e.se.answered(id) {
 				return
 			}
-			if atomic.LoadInt32(&ws.closed) == 0 {
+			if atomic.LoadInt64(&e.tg.closedN) < mine {
 				atomic.AddInt64(&e.tg.inside, 1)
 			} else {
 				atomic.AddInt64(&e.tg.outlived, 1)
@@ -788,13 +787,13 @@ func (e *env) runSteps() *verdict {
 				return &verdict{"connection", "sending a request failed: " + err.Error()}
 			}
 			if st.Wait {
-				if !waitFor(bound(), func() bool { return e.se.answered(id) || e.se.broken() }) {
+				if !waitFor(bound(e.pl.Transport), func() bool { return e.se.answered(id) || e.se.broken() }) {
 					return &verdict{"response-missing", fmt.Sprintf("%s (CSeq %s) was not answered within %v", st.Method, id, ioBound)}
 				}
 			}
 		}
 	}
-	if !e.tg.in.Wait(bound()) && !e.se.broken() {
+	if !e.tg.in.Wait(bound(e.pl.Transport)) && !e.se.broken() {
 		return &verdict{"response-missing", "a request sent while a frame write was parked was never answered"}
 	}
 	return nil
@@ -810,7 +809,7 @@ func (e *env) drain(allAnswered func() bool) bool {
 	e.sentinel = p.Data
 	e.smu.Unlock()
 	e.emit(sp, p, true)
-	deadline := time.Now().Add(bound())
+	deadline := time.Now().Add(bound(e.pl.Transport))
 	for n := 0; ; n++ {
 		if e.se.broken() {
 			return false
@@ -849,6 +848,9 @@ func recordWindowClasses(pl *plan, tg *target, label string) bool {
 	if fired == 0 {
 		evid.Class(label + ": no window fired (parked occurrence not reached)")
 		return false
+	}
+	if late := atomic.LoadInt64(&tg.late); late > 0 {
+		evid.ClassN(label+": window closed before its request went out (scheduler delay, not counted)", late)
 	}
 	if inside > 0 {
 		evid.ClassN(label+": response received while the frame write was parked", inside)
